@@ -8,6 +8,7 @@ import (
 	"context"
 	"fmt"
 	"runtime"
+	"sort"
 	"strings"
 	"sync"
 	"sync/atomic"
@@ -179,6 +180,12 @@ func runC06(h *H) {
 			n = g.intn(200) + 40
 		}
 		c, p := g.canonicalInputs(n)
+		if k%8 == 3 {
+			// a very popular peer: one column with thousands of entries (a long row of the transpose)
+			n = 2500 + g.intn(1500)
+			c, p = g.hubInputs(n)
+			g.count("hub-column")
+		}
 		ct, _ := c.Transpose(context.Background())
 		v := g.vec(n)
 		ref := seqMulVec(ct, v)
@@ -281,7 +288,7 @@ func classify(err error, got, ref *sparse.Vector, recvBefore *sparse.Vector, rec
 func runC07(h *H) {
 	g := h.g
 	cases := h.budget(10, 60)
-	reps := h.budget(40, 1500)
+	reps := h.budget(40, 400)
 	procsList := []int{1, 2, 4, 16}
 	old := runtime.GOMAXPROCS(0)
 	defer runtime.GOMAXPROCS(old)
@@ -352,6 +359,47 @@ func runC07(h *H) {
 		inputsSame := csmEqualBits(&ct.CSMatrix, &ctIn.CSMatrix) && vecEqualBits(v, vIn)
 		emitTally("mulvec", n)
 		h.emit(h.line("C07", "after").Str("mulvec").Int(n).Bar().Bool(leaked).Bool(inputsSame))
+
+		// a large multiplication with expensive rows, cancelled shortly after it started: nothing may stay behind
+		if k%3 == 0 {
+			nb := 1500 + g.intn(500)
+			cb, _ := g.hubInputs(nb)
+			for i := range cb.Entries { // make every row expensive
+				if i%4 == 0 {
+					row := make([]sparse.Entry, 0, nb)
+					for j := 0; j < nb; j++ {
+						row = append(row, sparse.Entry{Index: j, Value: 1 / float64(nb)})
+					}
+					cb.Entries[i] = row
+				}
+			}
+			vb := &sparse.Vector{Dim: nb}
+			for j := 0; j < nb; j++ {
+				vb.Entries = append(vb.Entries, sparse.Entry{Index: j, Value: 1 / float64(nb)})
+			}
+			baseB := runtime.NumGoroutine()
+			for _, procs := range []int{2, 16} {
+				runtime.GOMAXPROCS(procs)
+				for r := 0; r < 12; r++ {
+					ctx, cancel := context.WithCancel(context.Background())
+					go func(d time.Duration) { time.Sleep(d); cancel() }(time.Duration(100+g.intn(900)) * time.Microsecond)
+					recv := &sparse.Vector{}
+					err := recv.MulVec(ctx, cb, vb)
+					cancel()
+					oc := "full"
+					if err == context.Canceled {
+						oc = "ctxerr"
+					} else if err != nil {
+						oc = "othererr"
+					}
+					tally[fmt.Sprintf("%s early-cancel procs=%d", oc, procs)]++
+				}
+			}
+			runtime.GOMAXPROCS(old)
+			leakedB := !goroutinesSettle(baseB)
+			emitTally("mulvec-large", nb)
+			h.emit(h.line("C07", "after").Str("mulvec-large").Int(nb).Bar().Bool(leakedB).Bool(true))
+		}
 
 		// Compute: cancel at the k-th poll of an undisturbed run; with and without iteration limits
 		for _, limited := range []bool{false, true} {
@@ -435,4 +483,30 @@ func runC07(h *H) {
 			h.emit(h.line("C07", "after").Str("transpose").Int(n).Bar().Bool(false).Bool(same))
 		}
 	}
+}
+
+// canonical inputs in which peer 0 is trusted by every other peer (a transposed row with n-1 entries)
+func (g *G) hubInputs(n int) (*sparse.Matrix, *sparse.Vector) {
+	m := &sparse.CSMatrix{MajorDim: n, MinorDim: n, Entries: make([][]sparse.Entry, n)}
+	for i := 1; i < n; i++ {
+		m.Entries[i] = []sparse.Entry{{Index: 0, Value: 1 + float64(g.intn(1000))/7}}
+		if j := 1 + g.intn(n-1); j != i {
+			m.Entries[i] = append(m.Entries[i], sparse.Entry{Index: j, Value: 0.5 + g.r.Float64()})
+			if j < 0 {
+				_ = j
+			}
+		}
+		sort.Slice(m.Entries[i], func(a, b int) bool { return m.Entries[i][a].Index < m.Entries[i][b].Index })
+	}
+	m.Entries[0] = []sparse.Entry{{Index: 1, Value: 1}, {Index: n - 1, Value: 2}}
+	p := &sparse.Vector{Dim: n}
+	for i := 0; i < n; i += 1 + g.intn(7) {
+		p.Entries = append(p.Entries, sparse.Entry{Index: i, Value: 1 + g.r.Float64()})
+	}
+	basic.CanonicalizeTrustVector(p)
+	c := &sparse.Matrix{CSMatrix: *m}
+	if err := basic.CanonicalizeLocalTrust(c, p); err != nil {
+		panic(err)
+	}
+	return cloneCSR(c), p
 }
